@@ -3,6 +3,8 @@ open Pcore.Reflect
 #print axioms C18_roundtrip
 #print axioms C18_type_accepts
 #print axioms C18_bridge
+#print axioms C18_roundtrip_iff
+#print axioms C18_type_accepts_iff
 #print axioms C18_int_width
 #print axioms C18_uint_width
 #print axioms C18_roundtrip_unsigned_wraps
